@@ -78,7 +78,7 @@ func h08a(w int, thorough bool) {
 		for p := 2044 - 4 - w - 1; p <= 2044; p++ {
 			pads = append(pads, p)
 		}
-		pads = append(pads, 0, 1, 2, 3, 4)
+		pads = append(pads, 0)
 	}
 	pad := pads[vxChoice(len(pads))]
 	data := make([]byte, 0, pad+w+32)
@@ -90,11 +90,7 @@ func h08a(w int, thorough bool) {
 	tail := " tail of the line\nzz\n"
 	data = append(data, tail...)
 	r := &vxChunkReader{data: data, failAt: -1}
-	if thorough {
-		r.chunks = []int{vxChunkMenu[vxChoice(len(vxChunkMenu))], vxChunkMenu[vxChoice(len(vxChunkMenu))]}
-	} else {
-		r.chunks = []int{[]int{1, 1020, 1021, 4096}[vxChoice(4)], []int{3, 4096}[vxChoice(2)]}
-	}
+	r.chunks = []int{[]int{1, 1020, 1021, 4096}[vxChoice(4)], []int{3, 4096}[vxChoice(2)]}
 	r.eofWithData = vxBool()
 	ref := append(append([]byte{}, content...), tail...)
 	if vxNative() {
